@@ -63,13 +63,15 @@ def finding_key(e, reason, cls):
         return "C18:prover-reuse:prunes-leak"                # pruned branches of an earlier request of the same prover reappear
     if reason == "absent-key-proved":
         return "C18:dict:absent-key-proved"                  # (whatever the source looks like)
+    if reason == "returned-value":
+        return "C18:dict:returned-value"                     # the value returned beside the proof is not the dictionary's (whatever the source)
     if cls == "held":
         return "C18:held-cursor:prune-set"                   # wrong positions pruned after a cursor value was kept while others were derived
-    if cls == "beneath-merkle":
-        # the session pruned a position strictly beneath a Merkle-proof / Merkle-update cell of the source (clause in the text)
-        return "C18:merkle-cell-below-root:pruned-beneath:%s" % ("refused" if reason == "create-proof-error" else "wrong-proof")
-    if cls == "merkle":
-        return "C18:merkle-cell-below-root:%s" % reason       # the source has Merkle cells below its root, nothing pruned beneath them
+    if cls in ("beneath-merkle", "merkle"):
+        # the source has Merkle-proof / Merkle-update cells below its root (where the session pruned relative to them, and
+        # the failing clause, are in the text)
+        return "C18:merkle-cell-below-root:%s" % ("refused-although-not-reached" if reason == "create-proof-error" else
+                                                  "prune-set" if reason in ("asked-but-not-pruned", "pruned-but-not-asked") else "wrong-proof")
     if cls == "partial":
         return "C18:partial-source:%s" % reason              # the source is the tree under an earlier proof; named by the failing clause
     if k == "Key":
